@@ -9,7 +9,35 @@ use ppp::{HeaderResult, PartialResult};
 use std::error::Error;
 
 fn sink<T: std::fmt::Debug>(v: &T) -> usize {
-    format!("{:?}", v).len()
+    let plain = format!("{:?}", v).len();
+    // the pretty and the padded form as well, unless the value is huge (a 100 KB header prints to megabytes)
+    if plain <= 4096 {
+        plain + format!("{:#?}", v).len().min(1) + format!("{:40?}", v).len().min(1)
+    } else {
+        plain
+    }
+}
+
+/// Every formatter must return normally whatever options the caller's format spec carries (width below and above the
+/// text's length, precision below and far above it, alignment, sign, zero padding, alternate form).
+fn fmt_specs<T: std::fmt::Display>(v: &T) -> usize {
+    // every fourth call (the specs do not depend on the input; a quarter of several million values is plenty)
+    thread_local! { static CALLS: std::cell::Cell<u32> = std::cell::Cell::new(0); }
+    let n = CALLS.with(|c| {
+        let v = c.get().wrapping_add(1);
+        c.set(v);
+        v
+    });
+    if n % 4 != 0 {
+        return 0;
+    }
+    format!("{:.120}", v).len().min(1)
+        + format!("{:.3}", v).len().min(1)
+        + format!("{:.0}", v).len().min(1)
+        + format!("{:200}", v).len().min(1)
+        + format!("{:>5}", v).len().min(1)
+        + format!("{:^300.150}", v).len().min(1)
+        + format!("{:+#012}", v).len().min(1)
 }
 
 /// Exercise everything reachable from a v1 result.
@@ -21,6 +49,7 @@ fn v1_surface<E: Error + PartialResult + std::fmt::Debug + PartialEq>(r: &Result
             n += h.protocol().len();
             n += h.addresses_str().len();
             n += h.to_string().len();
+            n += fmt_specs(h) + fmt_specs(&h.addresses);
             let o = h.to_owned();
             n += o.addresses_str().len() + o.protocol().len();
             n += (o == *h) as usize + (h.clone() == o) as usize;
@@ -30,6 +59,7 @@ fn v1_surface<E: Error + PartialResult + std::fmt::Debug + PartialEq>(r: &Result
         }
         Err(e) => {
             n += e.to_string().len();
+            n += fmt_specs(e);
             n += sink(e);
             n += e.source().map(|s| s.to_string().len()).unwrap_or(0);
             n += e.is_incomplete() as usize + e.is_complete() as usize;
@@ -91,6 +121,7 @@ fn v2_surface(r: &Result<ppp::v2::Header<'_>, ppp::v2::ParseError>) -> Result<us
             let o = h.to_owned();
             n += (o == *h) as usize + o.tlv_bytes().len() + o.address_bytes().len();
             n += h.to_string().len() + o.to_string().len();
+            n += fmt_specs(h) + fmt_specs(&o);
             n += sink(&h.addresses) + sink(&h.command) + sink(&h.protocol) + sink(&h.version);
             n += h.addresses.len() + h.addresses.is_empty() as usize;
             if h.len() <= 600 {
